@@ -18,8 +18,8 @@ ValidLayout(l) ==
 \* the repository a newly created local branch lives in: an existing own one, else the enclosing shared one, else a new own
 RepoForBranch(l) == IF l.br # "ref" THEN l.repo ELSE IF l.repo = "unused" THEN "own" ELSE IF l.above THEN "shared" ELSE "own"
 
-\* revisions of a 2a-level (rich-root) repository cannot be fetched into an older one: operations that have to move the
-\* location's own repository's revisions somewhere else are refused then (before anything is touched)
+\* revisions of a 2a-level (rich-root) repository cannot be fetched into an older one: an operation that has to copy the
+\* location's own repository's revisions into an (empty) older shared repository is refused (before anything is touched)
 Compat(src, dst) == ~(Rank(src) = 3 /\ Rank(dst) < 3)
 
 (* Plan(l, k) = [out, lay]: out = "ok" | "already" (Already* error: nothing to do) | "refused" (an error before anything
@@ -36,12 +36,14 @@ Plan(l, k) ==
            ELSE Yes([l EXCEPT !.tree = FALSE, !.br = "local", !.repo = RepoForBranch(l), !.dirty = FALSE, !.km = (l.br # "ref")])
       [] k = "checkout" ->
            IF l.tree /\ l.br = "bound" THEN No(l, "already")
-           ELSE IF ~l.km THEN No(l, "refused")                                               \* NoBindLocation
+           \* AS IMPLEMENTED: apply() creates the working tree before it looks for a bind location; without one it raises
+           \* NoBindLocation with the tree already made (nothing is lost, but the refusal is not a no-op)
+           ELSE IF ~l.km THEN [out |-> "refused", lay |-> [l EXCEPT !.tree = TRUE, !.pure = (@ /\ l.tree)]]
            ELSE Yes([l EXCEPT !.tree = TRUE, !.br = "bound", !.repo = RepoForBranch(l)])
       [] k = "lightweight-checkout" ->
-           IF l.br = "ref" THEN No(l, "already")
+           IF l.br = "ref" /\ l.repo = "none" THEN No(l, "already")
+           ELSE IF l.br = "ref" THEN Yes([l EXCEPT !.repo = "none"])                         \* drops the unused repository
            ELSE IF ~l.km THEN No(l, "refused")                                               \* NoBindLocation
-           ELSE IF l.repo = "own" /\ ~Compat(l.fmt, l.mfmt) THEN No(l, "refused")           \* IncompatibleRepositories
            ELSE Yes([l EXCEPT !.tree = TRUE, !.br = "ref", !.repo = "none"])
       [] k = "use-shared" ->
            IF l.repo \in {"shared", "none"} THEN No(l, "already")
@@ -86,7 +88,7 @@ PlanUpgradeShared(l, f) ==
     IF Rank(f) < Rank(l.sfmt) THEN No(l, "refused")
     ELSE IF f = "development-colo" /\ Rank(l.sfmt) < 3 THEN No(l, "diverges")
     ELSE LET l2 == [l EXCEPT !.sfmt = f] IN
-         IF l.repo # "shared" THEN Yes(l2)
+         IF l.repo # "shared" /\ l.br # "ref" THEN Yes(l2)          \* (a lightweight checkout below it is upgraded too)
          ELSE LET d == PlanUpgrade(l2, f) IN [out |-> d.out, lay |-> d.lay]
 
 (* what an observer of the location can see of the content *)
